@@ -11,7 +11,7 @@ import hints as H
 from vcommon import Report, digest, die, run_dir, seed
 
 PROP = "C09"
-SHAPES = ["plain", "plain", "abs", "repeat_abs", "chain", "eq", "nonconvex", "abs"]
+SHAPES = ["plain", "plain", "abs", "repeat_abs", "chain", "eq", "nonconvex", "abs", "chain_abs"]
 
 
 def gen_cases(tier):
